@@ -75,7 +75,7 @@ def main():
         for c in checks:
             results[c + ":quick"] = run(c, "quick")
             print("   %s quick rc=%d %s" % (c, results[c + ":quick"]["rc"], results[c + ":quick"]["first"][:160]))
-        if results.get(pid + ":quick", {}).get("rc") != 1:
+        if results.get(pid + ":quick", {}).get("rc") != 1 and not os.environ.get("SEED_NO_THOROUGH"):
             results[pid + ":thorough"] = run(pid, "thorough")
             print("   %s thorough rc=%d %s" % (pid, results[pid + ":thorough"]["rc"], results[pid + ":thorough"]["first"][:160]))
     sh("git -C %s checkout -q -- ." % wt)
